@@ -483,9 +483,46 @@ def input_check(case, ctx):
     return res
 
 
+def marker_enum(ctx):
+    from . import c03
+    for i in range(5):
+        for t in range(3):
+            yield {"unit": i, "t": t}
+
+
+def marker_check(case, ctx):
+    """Variadic marker and argument classes of direct and indirect calls agree with the definitions in the same unit
+    (hand-written units shared with C03: functions without named parameters, calls through pointers, unnamed parameters)."""
+    from . import c03
+    res = Result()
+    src = c03.SPECIAL_UNITS[case["unit"]]
+    target = cproc.TARGETS[case["t"]]
+    p = cproc.cc(ctx, src.encode(), target, "plain")
+    res.n = 1
+    if p.rc != 0:
+        res.fail = dict(sig="", msg="valid unit rejected (%s): %s" % (target, p.err.decode(errors="replace")[:200]), input=src)
+        return res
+    mod, errs = ilcheck.validate(p.out)
+    if errs:
+        res.fail = dict(sig="", msg="calls and definitions disagree (%s): %s" % (target, errs[:3]), input=src, il=p.out.decode()[:1500])
+        return res
+    # every call of a function pointer typed `T (...)` / `T (int, ...)` must carry the marker after the named arguments
+    want = {"vzp": 0, "vqp": 0}
+    for f in mod.funcs:
+        for b in f.blocks:
+            for ins in b.insts:
+                if ins.op == "call" and ins.args[0].kind != "glo" and case["unit"] in (0, 1) and ins.variadic_at != 0:
+                    res.fail = dict(sig="", msg="indirect call of a function without named parameters in $%s has the marker at %s" % (f.name, ins.variadic_at), input=src, il=p.out.decode()[:1500])
+                    return res
+    res.keys.append(sha([src, target]))
+    res.sample = {"unit": src[:100], "target": target}
+    return res
+
+
 def sources(ctx):
     return [
         Source("input", input_check, enum=lambda ctx: iter(())),
+        Source("markers", marker_check, enum=marker_enum, exhaustive=True),
         Source("structural", struct_check, strategy=lambda c: struct_cases(), examples={"quick": 1500, "thorough": 50000}),
         Source("dynamic", dynamic_check, strategy=lambda c: signatures(), examples={"quick": 220, "thorough": 6000}),
     ]
